@@ -14,6 +14,10 @@ type ModelProc struct {
 	cmd *exec.Cmd
 	in  io.WriteCloser
 	out *bufio.Reader
+	// Transcript, when non-nil, records every committed command ("> …") and
+	// the raw output lines the runner printed for it ("< …"); the in-kernel
+	// replay (coq/cases/RouterCases.v) re-evaluates it with vm_compute.
+	Transcript *[]string
 }
 
 func StartModel(bin string) (*ModelProc, error) {
@@ -42,12 +46,19 @@ func (p *ModelProc) Send(line string) (obs []Obs, sizes []int, err error) {
 	if _, err = io.WriteString(p.in, line+"\n"); err != nil {
 		return nil, nil, err
 	}
+	record := p.Transcript != nil && !strings.HasPrefix(line, "try")
+	if record {
+		*p.Transcript = append(*p.Transcript, "> "+line)
+	}
 	for {
 		l, e := p.out.ReadString('\n')
 		if e != nil {
 			return nil, nil, fmt.Errorf("model runner died: %v", e)
 		}
 		l = strings.TrimRight(l, "\n")
+		if record && strings.HasPrefix(l, "out ") {
+			*p.Transcript = append(*p.Transcript, "< "+l)
+		}
 		switch {
 		case l == "end":
 			return obs, sizes, err
@@ -83,10 +94,15 @@ type ModelRun struct {
 // RunModel replays the resolved ops of an implementation run on the model
 // and reports the first difference (nil = they agree on every op).
 func RunModel(bin string, sc *Scenario, impl *ImplRun, checkSizes bool) (*ModelRun, *Mismatch, error) {
+	return RunModelT(bin, sc, impl, checkSizes, nil)
+}
+
+func RunModelT(bin string, sc *Scenario, impl *ImplRun, checkSizes bool, transcript *[]string) (*ModelRun, *Mismatch, error) {
 	p, err := StartModel(bin)
 	if err != nil {
 		return nil, nil, err
 	}
+	p.Transcript = transcript
 	defer p.Close()
 	for i := range sc.Realms {
 		if _, _, err := p.Send(realmLine(i, &sc.Realms[i], func(idx int) int64 { return modelSid(idx) })); err != nil {
